@@ -34,6 +34,8 @@ def pow_unit_interval(ex, st):
     # instances of the facts proved by induction in prove_builtin() below
     for (x, n, t) in ex.pow_terms:
         unit = z3.And(x >= 0, x <= 1, n >= 0)
+        facts.append(z3.Implies(n == 0, t == 1))
+        facts.append(z3.Implies(n == 1, t == x))
         facts.append(z3.Implies(unit, z3.And(t >= 0, t <= 1)))
         facts.append(z3.Implies(z3.And(unit, n >= 1), t <= x))
         for (x2, n2, t2) in ex.pow_terms:
@@ -42,15 +44,33 @@ def pow_unit_interval(ex, st):
     return st.assume(*facts)
 
 
+@lemma('sum_ext')
+def sum_ext(ex, st):
+    """extensionality of SUMR (proved by induction in prove_builtin): equal length and pointwise equal numeric
+    values give equal sums.  Instantiated for every pair of sums on the path / in the clause."""
+    facts = []
+    k = z3.Int('k!se')
+    terms = ex.sum_terms
+    for i in range(len(terms)):
+        for j in range(i + 1, len(terms)):
+            (a1, n1), (a2, n2) = terms[i], terms[j]
+            if a1.eq(a2) and n1.eq(n2):
+                continue
+            pw = z3.ForAll([k], z3.Implies(z3.And(k >= 0, k < n1), Z.num(z3.Select(a1, k)) == Z.num(z3.Select(a2, k))))
+            facts.append(z3.Implies(z3.And(n1 == n2, pw), Z.SUMR(a1, n1) == Z.SUMR(a2, n2)))
+            facts.append(z3.Implies(z3.And(n1 <= 0, n2 <= 0), Z.SUMR(a1, n1) == Z.SUMR(a2, n2)))
+    return st.assume(*facts)
+
+
 def pw_facts(x, m, n):
     """the instantiated statement of the PW lemma for 0<=x<=1, 0<=m<=n (used by spec-level lemmas)"""
-    return [z3.Implies(z3.And(x >= 0, x <= 1, m >= 0, n >= m),
+    return [z3.Implies(n == 0, Z.PW(x, n) == 1), z3.Implies(n == 1, Z.PW(x, n) == x), z3.Implies(z3.And(x >= 0, x <= 1, m >= 0, n >= m),
                        z3.And(Z.PW(x, n) >= 0, Z.PW(x, n) <= Z.PW(x, m), Z.PW(x, m) <= 1))]
 
 
 def prove_builtin(timeout_ms=10000):
-    """Induction proofs (base + step as separate z3 queries) of the facts the instantiators above use.
-    The induction schema itself (base /\\ step => forall n) is the only thing trusted."""
+    """Induction proofs (base + step as separate z3 queries) of the facts the instantiators above use, from the
+    defining equations of PW / SUMR.  The induction schema itself (base /\\ step => forall n) is what is trusted."""
     import time
     out = []
     x = z3.Real('x')
@@ -69,17 +89,22 @@ def prove_builtin(timeout_ms=10000):
         out.append({'name': name, 'status': 'proved' if r == z3.unsat else ('refuted' if r == z3.sat else 'unknown'),
                     'time_s': round(time.time() - t0, 3), 'backend': 'z3'})
 
+    D = lambda *pairs: [f for (xx, nn) in pairs for f in Z.pw_def(xx, nn)]
     # P(n): 0 <= PW(x,n) <= 1
-    prove('PW.bounds.base', [unit], z3.And(PW(x, 0) >= 0, PW(x, 0) <= 1))
-    prove('PW.bounds.step', [unit, n >= 0, PW(x, n) >= 0, PW(x, n) <= 1, PW(x, n + 1) == x * PW(x, n)],
+    prove('PW.bounds.base', [unit] + D((x, z3.IntVal(0))), z3.And(PW(x, 0) >= 0, PW(x, 0) <= 1))
+    prove('PW.bounds.step', [unit, n >= 0, PW(x, n) >= 0, PW(x, n) <= 1] + D((x, n)),
           z3.And(PW(x, n + 1) >= 0, PW(x, n + 1) <= 1))
-    prove('PW.unfold', [n >= 0], PW(x, n + 1) == x * PW(x, n))
     # Q(n): PW(x,n+1) <= PW(x,n)   (from P(n))
-    prove('PW.decr', [unit, n >= 0, PW(x, n) >= 0, PW(x, n) <= 1, PW(x, n + 1) == x * PW(x, n)], PW(x, n + 1) <= PW(x, n))
+    prove('PW.decr', [unit, n >= 0, PW(x, n) >= 0, PW(x, n) <= 1] + D((x, n)), PW(x, n + 1) <= PW(x, n))
     # M(n): m <= n => PW(x,n) <= PW(x,m), by induction on n starting at m
     prove('PW.mono.base', [unit, m >= 0, n == m], PW(x, n) <= PW(x, m))
     prove('PW.mono.step', [unit, m >= 0, n >= m, PW(x, n) <= PW(x, m), PW(x, n + 1) <= PW(x, n)], PW(x, n + 1) <= PW(x, m))
-    prove('PW.one', [], PW(x, 1) == x)
+    prove('PW.one', D((x, z3.IntVal(0))), PW(x, 1) == x)
+    # SUMR extensionality, by induction on n: E(n) := (forall k<n. num a[k] = num b[k]) => SUMR(a,n) = SUMR(b,n)
+    a, b2 = z3.Consts('a b', Z.VArr)
+    prove('SUMR.ext.base', [n <= 0] + Z.sumr_def(a, n) + Z.sumr_def(b2, n), Z.SUMR(a, n) == Z.SUMR(b2, n))
+    prove('SUMR.ext.step', [n >= 0, Z.SUMR(a, n) == Z.SUMR(b2, n), Z.num(z3.Select(a, n)) == Z.num(z3.Select(b2, n))]
+          + Z.sumr_def(a, n) + Z.sumr_def(b2, n), Z.SUMR(a, n + 1) == Z.SUMR(b2, n + 1))
     # the instantiated facts used for abstract multiplication are theorems of real arithmetic
     y = z3.Real('y')
     for k, f in enumerate(Z.mul_facts(x, y, x * y)):
